@@ -72,7 +72,7 @@ func init() {
 			sl := slicesOver(3, maxLen)
 			strs := []string{"a", "b", ""}
 			return []engine.Phase{
-				{Name: "set-helpers", ShardDepth: 2, Bounds: engine.Bounds{InputDev: -1},
+				{Name: "set-helpers", Serial: true, Bounds: engine.Bounds{InputDev: -1},
 					Rule: "all ordered pairs of slices over {0,1,2} up to the length bound (ints, and the same shapes over strings {a,b,\"\"}): Union/Intersect/Difference/Unique/Include as set operations, inputs unmodified; non-trivial = distinct pairs where both slices have a repeated element",
 					Body: func(c *engine.Ctx) {
 						a := sl[c.In("a", len(sl))]
@@ -141,7 +141,7 @@ func init() {
 							c.Violation("C20:set-helpers:string-instantiation-differs", d)
 						}
 					}},
-				{Name: "max-min", ShardDepth: 1, Bounds: engine.Bounds{InputDev: -1},
+				{Name: "max-min", Serial: true, Bounds: engine.Bounds{InputDev: -1},
 					Rule: "all slices over {-1,0,1,2} up to length 4 (ints and floats) and the empty slice: Max/Min return an element bounding all others, error on empty; non-trivial = distinct slices of length >= 2",
 					Body: func(c *engine.Ctx) {
 						s4 := slicesOver(4, 4)
@@ -186,7 +186,7 @@ func init() {
 							c.Violation("C20:Max/Min:result-not-an-element", d)
 						}
 					}},
-				{Name: "arithmetic-shift", ShardDepth: 2, Bounds: engine.Bounds{InputDev: -1},
+				{Name: "arithmetic-shift", Serial: true, Bounds: engine.Bounds{InputDev: -1},
 					Rule: "index in [-64,64] u {+-3,+-(2^k+-1) for k in 10,31,40,61} x shift in [-62,62] without int64 overflow: CalculateArithmeticShift = floor(index*2^shift) (big.Int); non-trivial = distinct cases with negative index and negative shift",
 					Body: func(c *engine.Ctx) {
 						var idx []int64
@@ -218,7 +218,7 @@ func init() {
 							c.Violation("C20:CalculateArithmeticShift:not-floor-of-scaled-index", map[string]any{"index": i, "shift": s, "got": got, "want": want.String()})
 						}
 					}},
-				{Name: "combinations", ShardDepth: 1, Bounds: engine.Bounds{InputDev: -1},
+				{Name: "combinations", Serial: true, Bounds: engine.Bounds{InputDev: -1},
 					Rule: "all 0 <= k <= n <= 12: the visit sequence equals the lexicographic enumeration of k-subsets of 0..n-1, each once; non-trivial = distinct (n,k) with 0 < k < n",
 					Body: func(c *engine.Ctx) {
 						n := int64(c.In("n", 13))
@@ -249,7 +249,7 @@ func init() {
 							c.Violation("C20:Combinations:not-the-lexicographic-enumeration", map[string]any{"n": n, "k": k, "got_n": len(got), "want_n": len(want), "got_head": fmt.Sprint(head2(got, 4)), "want_head": fmt.Sprint(head2(want, 4))})
 						}
 					}},
-				{Name: "vectors-lines", ShardDepth: 2, Bounds: engine.Bounds{InputDev: -1},
+				{Name: "vectors-lines", Serial: true, Bounds: engine.Bounds{InputDev: -1},
 					Rule: "all pairs of 3-vectors with components in the 8-value alphabet (x,y free, z from a 3-value sub-alphabet): line parameter 0/1 = end points, Add/Sub/Scale/Dot/Cross/Norm direct formulas, rotation between the two vectors is a unit quaternion carrying the first direction onto the second (incl. exact opposites); non-trivial = distinct pairs of non-parallel non-zero vectors",
 					Body: func(c *engine.Ctx) {
 						zc := []float64{0, 1, -2}
@@ -321,7 +321,7 @@ func init() {
 							c.Violation("C20:RotateBetweenVector:does-not-carry-first-direction-onto-second", d)
 						}
 					}},
-				{Name: "matrices", ShardDepth: 2, Bounds: engine.Bounds{InputDev: -1},
+				{Name: "matrices", Serial: true, Bounds: engine.Bounds{InputDev: -1},
 					Rule: "matrices built from 3 generators (rotation-like, shear, scale with entries from the component alphabet) x vectors: (AB)C = A(BC), (AB)v = A(Bv) to 1e-12 relative, unit matrix neutral; non-trivial = distinct triples of pairwise different generators",
 					Body: func(c *engine.Ctx) {
 						gen := func(i int) spatial.Matrix3 {
